@@ -259,11 +259,13 @@ def cli_verdict(item):
     eng = aegen.Engine(desc)
     base = eng.write(root)
     env = dict(os.environ)
-    env['PYTHONPATH'] = os.pathsep.join([common.PYROOT, common.VERIF, root])
+    # the engine's own directory is NOT put on the path: finding it from
+    # --ae-dir / --ae-pkg is the tool's business
+    env['PYTHONPATH'] = os.pathsep.join([common.PYROOT, common.VERIF])
     p = subprocess.run(
         [sys.executable, '-m', 'dawgie.tools.compliant', f'--ae-dir={base}',
          f'--ae-pkg={eng.pkg}', '--silent'],
-        env=env, capture_output=True, text=True, timeout=300)
+        env=env, capture_output=True, text=True, timeout=300, cwd='/')
     return label, inproc, p.returncode == 0, (p.stdout + p.stderr)[-300:]
 
 
@@ -292,6 +294,12 @@ def run(ctx):
             continue
         seen.add(key)
         reps.append((desc, ok, label))
+    # the same under a base package with two components (what the submit gate builds)
+    for desc, ok, label in list(reps):
+        if label.startswith('valid:task:') or label.startswith('dot-alg:') or label.startswith('no-sv:'):
+            d = dict(desc)
+            d['nested'] = True
+            reps.append((d, ok, label + ':nested-base-package'))
     for label, inproc, ext, tail in common.pmap(cli_verdict, reps, procs=16):
         ctx.count('cli_runs')
         if inproc != ext:
